@@ -1,5 +1,5 @@
 ----------------------------- MODULE WorldLoadMC -----------------------------
-(* Model-checking instances of WorldLoad: named description families for cfg `Descs <- ...`. *)
+(* Model-checking instances of WorldLoad: named description families, chosen by the constant Fam. *)
 EXTENDS WorldLoad
 
 Comp(t, a, kw) == [type |-> t, args |-> a, kwargs |-> kw]
@@ -13,10 +13,10 @@ Kw2(u, v)      == << <<"val", u>>, <<"other", v>> >>
 ArgsOne    == {<< <<v>>, <<>> >> : v \in Toks} \cup {<< <<>>, Kw1(v) >> : v \in Toks}
 ArgsTwo(C) == {<< <<u, v>>, <<>> >> : u \in C, v \in C} \cup {<< <<u>>, Kw1(v) >> : u \in C, v \in C}
               \cup {<< <<>>, Kw2(u, v) >> : u \in C, v \in C}
-Core       == {"O1", "R1", "R2", "H2", "M1", "M2", "M4", "N1", "L1"}
+Core       == {"O1", "O2", "R1", "R2", "H2", "M1", "M2", "M4", "M6", "N1", "L1", "D1"}
 
-FamV(AS, CT, PT) == {Desc(<<>>, <<Ent(AutoMark, <<Comp(t, a[1], a[2])>>)>>) : t \in CT, a \in AS}
-                    \cup {Desc(<<Comp(t, a[1], a[2])>>, <<>>) : t \in PT, a \in AS}
+InV(d, AS, CT, PT) == \/ \E t \in CT, a \in AS : d = Desc(<<>>, <<Ent(AutoMark, <<Comp(t, a[1], a[2])>>)>>)
+                      \/ \E t \in PT, a \in AS : d = Desc(<<Comp(t, a[1], a[2])>>, <<>>)
 
 (* --- family S: structure — processors x entities (ids, component lists) -------------------- *)
 SH0 == <<>>
@@ -35,32 +35,29 @@ PS5 == <<Comp("PLate", <<>>, <<>>), Comp("PA", <<>>, <<>>)>>          \* priorit
 PS6 == <<Comp("PA", <<>>, <<>>), Comp("PHandler", <<>>, Kw1("M2"))>>
 
 \* entity lists of length n: explicit ids pairwise distinct and before the automatic ones
-EntSeqs(n, IDs, SHs) ==
-    {[i \in 1 .. n |-> Ent(f[i][1], f[i][2])] :
-        f \in {g \in [1 .. n -> (IDs \cup {AutoMark}) \X SHs] :
-                  /\ \A i, j \in 1 .. n : (i < j /\ g[i][1] # AutoMark) => g[i][1] # g[j][1]
-                  /\ \A i, j \in 1 .. n : (i < j /\ g[i][1] = AutoMark) => g[j][1] = AutoMark}}
-FamS(PSs, N, IDs, SHs) == {Desc(ps, es) : ps \in PSs, es \in UNION {EntSeqs(n, IDs, SHs) : n \in 0 .. N}}
+IdSeqs(n, IDs) == {g \in [1 .. n -> IDs \cup {AutoMark}] :
+                      /\ \A i, j \in 1 .. n : (i < j /\ g[i] # AutoMark) => g[i] # g[j]
+                      /\ \A i, j \in 1 .. n : (i < j /\ g[i] = AutoMark) => g[j] = AutoMark}
+InS(d, PSs, N, IDs, SHs) == \E ps \in PSs, n \in 0 .. N : \E g \in IdSeqs(n, IDs), h \in [1 .. n -> SHs] :
+                                d = Desc(ps, [i \in 1 .. n |-> Ent(g[i], h[i])])
 
 IdsQ == {<<"s", 1>>, <<"i", 1>>, <<"i", 2>>}
 IdsT == IdsQ \cup {<<"s", 2>>}             \* <<"s", 2>> is the string "1": not the integer 1
 
-\* TLC evaluates every zero-arity constant definition at start-up, used or not: the families hide
-\* behind the constant Fam and one CASE, so only the chosen one is ever built.
-CONSTANT Fam
+CONSTANT Fam       \* which family (cfg:  PickDesc <- InFam)
 SHsT == {SH0, SH1, SH2, SH3, SH4, SH5}
 PSOf(k) == CASE k = "TS0" -> PS0 [] k = "TS1" -> PS1 [] k = "TS2" -> PS2 [] k = "TS3" -> PS3
              [] k = "TS4" -> PS4 [] k = "TS5" -> PS5 [] k = "TS6" -> PS6
-QuickV(u) == FamV(ArgsOne \cup ArgsTwo(Core), {"CPlain", "CHandler"}, {"PA"})
-QuickS(u) == FamS({PS0, PS5, PS6}, 3, IdsQ, {SH0, SH1, SH3, SH4})
-DescsOf ==
-    CASE Fam = "tiny"   -> FamS({PS0, PS2}, 2, {<<"i", 1>>}, {SH1, SH3}) \cup FamV({<< <<"R2">>, Kw1("H2") >>}, {"CHandler"}, {})
-      [] Fam = "quickV" -> QuickV(0)
-      [] Fam = "quickS" -> QuickS(0)
-      [] Fam = "quick"  -> QuickV(0) \cup QuickS(0)
-      \* thorough: shards (one TLC run + dump each)
-      [] Fam = "TV1"    -> FamV(ArgsOne \cup ArgsTwo(Toks), {"CPlain"}, {})
-      [] Fam = "TV2"    -> FamV(ArgsOne \cup ArgsTwo(Toks), {"CHandler"}, {})
-      [] Fam = "TV3"    -> FamV(ArgsOne \cup ArgsTwo(Toks), {}, {"PA", "PHandler"})
-      [] OTHER          -> FamS({PSOf(Fam)}, 3, IdsT, SHsT)
+QuickV(d) == InV(d, ArgsOne \cup ArgsTwo(Core), {"CPlain", "CHandler"}, {"PA"})
+QuickS(d) == InS(d, {PS0, PS2, PS5, PS6}, 3, IdsQ, {SH0, SH1, SH3, SH4})
+InFam(d) ==
+    \/ Fam = "tiny"   /\ (InS(d, {PS0, PS2}, 2, {<<"i", 1>>}, {SH1, SH3}) \/ InV(d, {<< <<"R2">>, Kw1("H2") >>}, {"CHandler"}, {}))
+    \/ Fam = "quickV" /\ QuickV(d)
+    \/ Fam = "quickS" /\ QuickS(d)
+    \/ Fam = "quick"  /\ (QuickV(d) \/ QuickS(d))
+    \* thorough: shards (one TLC run + dump each)
+    \/ Fam = "TV1"    /\ InV(d, ArgsOne \cup ArgsTwo(Toks), {"CPlain"}, {})
+    \/ Fam = "TV2"    /\ InV(d, ArgsOne \cup ArgsTwo(Toks), {"CHandler"}, {})
+    \/ Fam = "TV3"    /\ InV(d, ArgsOne \cup ArgsTwo(Toks), {}, {"PA", "PHandler"})
+    \/ Fam \in {"TS0", "TS1", "TS2", "TS3", "TS4", "TS5", "TS6"} /\ InS(d, {PSOf(Fam)}, 3, IdsT, SHsT)
 =============================================================================
